@@ -270,9 +270,9 @@ def curArr {V} (st : St V) : Option (ArrC V) :=
   | a :: _ => if a.depth == st.opf.length then some a else none
   | [] => none
 
-def setCur {V} (st : St V) (a : ArrC V) : St V := { st with arrs := a :: st.arrs.tail }
+@[reducible] def setCur {V} (st : St V) (a : ArrC V) : St V := { st with arrs := a :: st.arrs.tail }
 
-def popArr {V} (st : St V) : St V := { st with arrs := st.arrs.tail }
+@[reducible] def popArr {V} (st : St V) : St V := { st with arrs := st.arrs.tail }
 
 /-- `for opftStack.Peek().(efp.Token) != opfStack.Peek().(efp.Token) { calculate…; opftStack.Pop() }`
 with the function separator `sep = opfStack.Peek()`.  A failing `calculate` puts an
